@@ -36,6 +36,7 @@ import Rooc.Proofs.LinWire
 import Rooc.Proofs.LinSucceed2
 import Rooc.Proofs.LinDExamples3
 import Rooc.Proofs.LinDExamples4
+import Rooc.Proofs.LinTrace2
 namespace Rooc.Props.C01
 open Rooc Rooc.Lin
 open Rooc.Lin.Gadget (B01 DomMax DomMin)
@@ -837,6 +838,32 @@ theorem compile_objective_defined {m : Model (Ext K)} {t : K} (ht : 0 ≤ t) {ma
     (ht1 : t < 1 ∨ NoIntVars m.domain) (ρ : String → K) (hs : srcFeasible m ρ = true) :
     ∃ v, eval ρ m.objective = some v :=
   compile_obj_defined ht h hm hsh hok ht1 ρ hs
+
+/-- **the work-list loses nothing**: when `linearizeWith` succeeds, every source constraint went through one
+successful loop iteration (no lowering function removes or reorders a queued constraint: `QExt`, proved for
+`Exp::linearize`, the logic lowering and the loop body without any invariant). -/
+theorem every_constraint_processed {m : Model (Ext K)} {b : BoundsMap (Ext K)} {d : List (DomVar (Ext K))}
+    {lm : LinModel (Ext K)} (h : linearizeWith m b d = .ok lm) :
+    ∀ c ∈ m.constraints, ∃ (s1 : St (Ext K)) (r1 : Unit × St (Ext K)), processConstraint c s1 = .ok r1 :=
+  compiled_processed h
+
+/-- **compile succeeds ⇒ defined, for the whole model** (`linearizeWith`): under the static contract every side
+of every constraint is defined at every assignment satisfying the domains (the right side of a bare assertion
+is not part of its meaning and is not lowered). -/
+theorem linearizeWith_sides_defined {m : Model (Ext K)} {b : BoundsMap (Ext K)} {d : List (DomVar (Ext K))}
+    {lm : LinModel (Ext K)} (hm : LogicModel m d) (h : linearizeWith m b d = .ok lm) :
+    ∀ c ∈ m.constraints, DefOn d c.lhs ∧ (c.isAssert = false → DefOn d c.rhs) :=
+  compiled_sides_defined hm h
+
+/-- **compile succeeds ⇒ defined, for the whole pipeline `Compile.linearize`**, on the DECLARED domains, for any
+tolerance and step limit, with no hypothesis besides the static contract: the objective and every side of every
+constraint of a model that compiles has a value at every assignment that satisfies the declarations.  (What the
+three repairs 5a25b35 / 46b0121 / ba14904 bought: an accepted model cannot contain an expression without a value.) -/
+theorem c01_compile_defined {m : Model (Ext K)} {tol : Ext K} {maxSteps : Nat} {lm : LinModel (Ext K)}
+    (h : Compile.linearize m tol maxSteps = .ok lm) (hm : LogicModel m m.domain) :
+    DefOn m.domain m.objective ∧
+    ∀ c ∈ m.constraints, DefOn m.domain c.lhs ∧ (c.isAssert = false → DefOn m.domain c.rhs) :=
+  compile_sides_defined h hm
 
 /-- the piecewise-linear fragment is a special case. -/
 theorem logicModel_of_fragModel {m : Model (Ext K)} {d : List (DomVar (Ext K))} (h : FragModel true m d) :
